@@ -15,6 +15,7 @@
 import SemaModel.Base.DriverUtil
 import SemaModel.C02.Model
 import SemaModel.Compose.Driver
+import SemaModel.Compose.RankDriver
 namespace Sema.C02
 open Sema
 
@@ -159,7 +160,9 @@ def step (d : DSt) (line : String) : DSt × String :=
 end Sema.C02
 
 /-- `semadriver C02` runs the C02 model; `semadriver C02 compose` answers the same op lines (and `searchx`)
-with the combined model of SemaModel/Compose (C01 point store + C02 indexes + C06 pipeline) -/
+with the combined model of SemaModel/Compose (C01 point store + C02 indexes + C06 pipeline); `semadriver C02 rank`
+answers the ranking histories with the combined model extended by the flat and text indexes (Compose/RankDriver.lean) -/
 def Sema.C02.driverMain (stdin stdout : IO.FS.Stream) (args : List String) : IO Unit :=
   if args.head? == some "compose" then Sema.Compose.driverMain stdin stdout args.tail
+  else if args.head? == some "rank" then Sema.Compose.rankDriverMain stdin stdout args.tail
   else Sema.loopState stdin stdout Sema.C02.step {}
